@@ -29,7 +29,7 @@ ASSUMPTIONS = ["pruning: two states with the same canonical form (visible conten
                "ids, which handles share which allocation through which window, allocation lengths, owner counts) have "
                "isomorphic futures; elements outside every view are not part of the form",
                "the language-level model implements the documented meaning of the list functions on Python lists"]
-NEEDS_THOROUGH = ["miri"]
+NEEDS_THOROUGH = ["miri", "fast"]
 
 CONFIGS = {
     "quick": [(3, 9), (4, 8)],
@@ -53,6 +53,9 @@ def shards(tier, seed):
     if tier == "thorough":
         for k in range(NS):
             out.append({"kind": "miri", "handles": 3, "depth": 4, "shard": k, "nshards": NS})
+        # the plain release build (debug assertions and overflow checks off, as shipped)
+        for k in range(NS):
+            out.append({"kind": "enum", "handles": 4, "depth": 9, "shard": k, "nshards": NS, "profile": "fast"})
     return out
 
 
@@ -74,14 +77,14 @@ def absorb_stats(sh, r, prefix):
 
 
 def run_enum(sh, spec):
-    w = get_worker()
+    w = get_worker(profile=spec.get("profile", "checked"))
     req = {"op": "listcheck", "handles": spec["handles"], "depth": spec["depth"], "shard": spec["shard"],
            "nshards": spec["nshards"], "prune": True}
     r = w.call(req, timeout=7200)
     if not r.get("ok"):
         sh.inconclusive_case(f"harness exception: listcheck failed: {str(r)[:300]}")
         return
-    absorb_stats(sh, r, f"enum_H{spec['handles']}_L{spec['depth']}")
+    absorb_stats(sh, r, f"enum_H{spec['handles']}_L{spec['depth']}" + ("_release_build" if spec.get("profile") == "fast" else ""))
     # canonical states are counted per shard by the explorer (shards partition the sequences, not the states, so the
     # sum over shards over-counts states reached in several shards; the per-shard numbers are in the counters)
     sh.extra_distinct += r["distinct_states"]
